@@ -25,18 +25,21 @@ def ladder_defaults(F):
         if len(dcs) < 2:
             continue
         # Some-edges of the switches on each downcast result
-        some_edges = set()
-        none_edges = []
+        sw = []
         for sb in range(g.n):
             si = g.switch_info(sb)
             if si and si[0] == "enum" and si[1][1] == "std::option::Option" and "Some" in si[2]:
                 o = origin(g, "c:" + si[1][0])
                 if o[0] == "call" and o[1] in dcs:
-                    some_edges.add(si[2]["Some"])
-                    none_edges.append(si[2].get("None", si[3]))
+                    sw.append((sb, si[2]["Some"], si[2].get("None", si[3])))
+        # the ladder = the top-level tests: a downcast nested inside another test's Some branch (dictionary values, the
+        # right-hand array of a comparison) is part of that branch, not a rung
+        top = [(sb, se, ne) for sb, se, ne in sw if not any(o_se != se and g.dominates(o_se, sb) for _, o_se, _ in sw)]
+        some_edges = {se for sb, se, ne in top}
+        none_edges = [ne for sb, se, ne in top]
         if len(some_edges) < 2:
             continue
-        # the default is what remains when EVERY downcast failed: reachable from each None edge without taking any Some edge
+        # the default is what remains when EVERY rung failed: reachable from each None edge without taking any Some edge
         reach = None
         for ne in none_edges:
             r_ = g.reachable(ne, avoid=frozenset(some_edges))
